@@ -276,13 +276,61 @@ Fixpoint same_handles (a b : list handle) : bool :=
 
 Definition all_closed (c : config) : bool := same_handles (opened c) (closedh c).
 
+(* ------------------------------------------------------------------ observed traces *)
+
+(* The harness records, for a real run of fs._bulk.Copier under its scheduler, the thread
+   picked at every scheduling decision together with the set of enabled threads at that
+   moment.  [replay] re-executes such a trace on the model and checks that the model
+   agrees on the enabled set before every action.  The producer's transitions that are
+   not yield points of the implementation (end of the file loop, end of the sentinel loop,
+   end of the join loop) are taken eagerly by [settle]; settle (step c t) is the run of
+   the schedule [t; 0; ...] so every theorem about [run] applies to replayed
+   configurations. *)
+
+Definition silent (c : config) : bool :=
+  match prod c with POpenSrc [] | PSentinels 0 | PJoins 0 => true | _ => false end.
+
+Definition settle1 (c : config) : config := if silent c then step c 0 else c.
+Definition settle (c : config) : config := settle1 (settle1 (settle1 c)).
+
+Definition enabled_set (c : config) : list nat := filter (enabled c) (seq 0 (S (cN c))).
+
+Fixpoint list_nat_eqb (a b : list nat) : bool :=
+  match a, b with
+  | [], [] => true
+  | x :: a', y :: b' => (x =? y) && list_nat_eqb a' b'
+  | _, _ => false
+  end.
+
+Fixpoint replay (c : config) (tr : list (nat * list nat)) : option config :=
+  match tr with
+  | [] => Some c
+  | (t, en) :: tr' =>
+      if list_nat_eqb (enabled_set c) en && enabled c t
+      then replay (settle (step c t)) tr' else None
+  end.
+
+Definition names (l : list file) : list nat := map fname l.
+
+(* 0 = the model reproduces the observation; otherwise the first check that fails *)
+Definition check_trace (N : nat) (files : list file) (tr : list (nat * list nat))
+           (exp_raised : bool) (exp_failed : list nat) (exp_nput : nat) : nat :=
+  match replay (settle (init N files)) tr with
+  | None => 1
+  | Some c =>
+      if negb (final c) then 2
+      else if negb (Bool.eqb (raised c) exp_raised) then 3
+      else if negb (list_nat_eqb (names (failedl c)) exp_failed) then 4
+      else if negb (nput c =? exp_nput) then 5
+      else if negb (all_closed c && workers_done c) then 6
+      else 0
+  end.
+
 (* ------------------------------------------------------------------ examples *)
 
 Definition f_ok (n k : nat) : file := mkFile n (repeat false k) false false.
 Definition f_bad_write (n : nat) : file := mkFile n [false; true; false] false false.
 Definition f_bad_close (n : nat) : file := mkFile n [false; false] true false.
-
-Definition names (l : list file) : list nat := map fname l.
 
 (* a fair round robin over the producer and N workers *)
 Fixpoint round_robin (N rounds : nat) : list nat :=
